@@ -84,6 +84,25 @@ def edge_flags(z, tmin, tmax):
     return lo_skip, hi_skip
 
 
+def edge_offsets(z, tmin, tmax):
+    """(lo_fwd, hi_back) of Model/HourlyPrep.v: where earliest.replace(hour=0) and latest.replace(hour=23) point, read from
+    the tz database: the stamp with that wall-clock reading on that date, the occurrence chosen by the `fold` of tmin / tmax;
+    a 00:00 that does not exist is moved forward to the first minute of the day"""
+    d0 = tzdays.local_date(tmin, z)
+    s0 = day_first(d0, z)
+    c0 = [t for t in range(s0, s0 + 181, 15) if tzdays.local_date(t, z) == d0 and tzdays.local_minute_of_day(t, z) == 0]
+    fold_min = local_dt(tmin, z).fold
+    lo = (c0[-1] if fold_min else c0[0]) if c0 else s0
+    d1 = tzdays.local_date(tmax, z)
+    e1 = day_first(d1 + dt.timedelta(days=1), z)
+    c1 = [t for t in range(e1 - 180, e1, 15) if tzdays.local_date(t, z) == d1 and tzdays.local_minute_of_day(t, z) == 23 * 60]
+    if not c1:
+        return None
+    fold_max = local_dt(tmax, z).fold
+    hi = c1[-1] if fold_max else c1[0]
+    return lo - s0, e1 - hi
+
+
 # ------------------------------------------------------------------ generator
 
 def _date_minute(y, m, d):
@@ -453,7 +472,10 @@ def coq_def(name, spec, obs):
     stamps = [r[0] for r in rows]
     tmin, tmax = min(stamps), max(stamps)
     bnds = tzdays.boundaries(tmin, tmax, z)
-    lo_skip, hi_skip = edge_flags(z, tmin, tmax)
+    eo = edge_offsets(z, tmin, tmax)
+    if eo is None:
+        return None, "the last supplied day has no 23:00"
+    lo_fwd, hi_back = eo
     n = len(obs["ts"])
     est, val, flg = [], [], []
     mode = "short" if n <= 72 else "recorded"
@@ -473,8 +495,8 @@ def coq_def(name, spec, obs):
             if not (c == "ghi" and not spec["has_ghi"]):
                 mode = "oracle"
             est.append(farr(v))
-    text = "Definition %s : acase := mkacase %s %s %s\n %s\n %s\n %s\n %s\n %s\n %s\n %s\n %s\n %d%%uint63 %d%%uint63\n %s\n %s\n %s\n %s\n %s\n %s.\n" % (
-        name, coq_bool(spec["elec"]), coq_bool(lo_skip), coq_bool(hi_skip), iarr(bnds),
+    text = "Definition %s : acase := mkacase %s %d%%uint63 %d%%uint63\n %s\n %s\n %s\n %s\n %s\n %s\n %s\n %s\n %d%%uint63 %d%%uint63\n %s\n %s\n %s\n %s\n %s\n %s.\n" % (
+        name, coq_bool(spec["elec"]), lo_fwd, hi_back, iarr(bnds),
         iarr(stamps), farr([r[1] for r in rows]), farr([r[2] for r in rows]), farr([r[3] for r in rows]),
         est[0], est[1], est[2], obs["ts"][0] if n else 0, n, val[0], val[1], val[2], flg[0], flg[1], flg[2])
     return text, mode
@@ -501,6 +523,9 @@ def work(item):
     res["zeros"] = sum(1 for r in spec["rows"] if r[2] == 0)
     if obs["kind"] == "ok" and obs["ts"] is not None and all(obs["val"][c] is not None or (c == "ghi") for c in COLS):
         res["text"], res["mode"] = coq_def("k_%d" % idx, spec, obs)
+        if res["text"] is None:
+            res["unmodellable"] = res["mode"]
+            return res
         res["size"] = len(res["text"])
         res["n_out"] = len(obs["ts"])
         res["n_filled"] = {c: int(obs["flag"][c].sum()) if obs["flag"][c] is not None else 0 for c in COLS}
@@ -597,7 +622,9 @@ def main():
                                 "pandas semantics re-specified in Model/HourlyPrep.v",
                                 "Coq.Floats.FloatOps.Prim2SF (reads the binary64 literals of the cases files exactly)"]
     run.check_proofs("Properties/C17.v", ["Proofs/HourlyPrepProofs.v"])
+    run.log("theorems checked: %s" % run.proof_ok)
     run.ensure_models(["Model/HourlyPrepRun.v", "Model/CasesLib.v"])
+    run.log("models built")
 
     items = []
     if run.replay:
@@ -675,6 +702,7 @@ def process(run, items, nproc):
         return
     for n_, i in enumerate(bad):
         r = todo[i]
+        run.log("model/implementation disagreement: %s -> %s" % (r["summary"], diags.get(r["idx"], "?")[:600]))
         if n_ < 6:
             run.corr_failures.append({"stream": "prep", "case": {"spec": regenerate(r)},
                                       "impl": {"rows": r["n_out"], "first": r["lo"], "mode": r["mode"]},
